@@ -36,7 +36,8 @@ RULE = (
     "blocks through a simulated pool and at least one block is empty or contains a null. Distinct: blake2b of (class, letters, n_threads, cpu_count, knob, ddof/axis)."
 )
 ASSUMPTIONS = [
-    "tasks are atomic; NUMBA_BOUNDSCHECK=1 turns an out-of-bounds read into an IndexError",
+    "task bodies are atomic in the task-atomic pool model and pre-empted only at Python line events of groupby_lib frames in the pre-emptive model (one fault-free run in three); compiled kernels and pandas / NumPy calls are never split; NUMBA_BOUNDSCHECK=1 turns an out-of-bounds read into an IndexError",
+    "statement-level faults are line-granular (DESIGN 9.4)",
     "integer arrays do not contain int64.min (the library's documented null marker; NumPy has none)",
     "NumPy reference computed in float64; sum/mean compared within 4*n*u*sum|x|, var/std within the sum-of-squares bound, min/max/count exactly",
     "helper clauses are pure functions evaluated alongside (no schedule in them)",
